@@ -174,6 +174,12 @@ func expand(r *rand.Rand, c route.Case) []route.Req {
 		}
 		add(q)
 	}
+	// the empty path of an absolute-form target without a path ("GET http://a.b HTTP/1.1"), under the hosts in use:
+	// it is a path other than '/', and adding the slash gives '/'
+	if r.IntN(2) == 0 && len(c.Reqs) > 0 {
+		q := c.Reqs[r.IntN(len(c.Reqs))]
+		add(route.Req{Method: q.Method, Host: q.Host, Path: ""})
+	}
 	// hostile last segments: build the wire form a client would send and let net/url derive Path and RawPath from it,
 	// exactly as the HTTP server does
 	for _, rs := range c.Routes {
@@ -263,6 +269,45 @@ func check(run *kit.Run, c route.Case, r *rand.Rand) {
 		run.Guard("probe|"+c.RoutesString()+"|"+q.String(), c, func() {
 			g, sv := probe(run, c, b, q, i == 0)
 			outs[i] = outcome{g, sv}
+		})
+	}
+	// the same routes seen from inside the write transaction that registers them, before Commit, on a router whose
+	// committed tree holds one single-parameter route of another verb (its pooled contexts are sized for that tree):
+	// every lookup through the transaction gives the answer of the committed router above
+	if len(c.Routes)%2 == 0 || len(c.Routes) < 4 {
+		run.Guard("txn|"+c.RoutesString(), c, func() {
+			c0 := c
+			c0.Routes, c0.Churn = nil, 0
+			b0, err := route.Build(c0)
+			if err != nil {
+				return
+			}
+			if _, err := b0.F.Handle("SEED", "/seed/{s}", b0.Handler()); err != nil {
+				return
+			}
+			// warm the pool with contexts of the committed tree
+			for i := 0; i < 3; i++ {
+				route.LookupObs(b0.F, route.Req{Method: "SEED", Path: "/seed/1"})
+			}
+			txn := b0.F.Txn(true)
+			defer txn.Abort()
+			for _, rs := range c.Routes {
+				if _, ok := b.Spec[rs.Method+" "+rs.Pattern]; !ok {
+					continue
+				}
+				if _, err := txn.Handle(rs.Method, rs.Pattern, b0.Handler(), route.RouteOpts(rs)...); err != nil {
+					run.Violate("txn-register|"+c.RoutesString(), fmt.Sprintf("a route the router accepted directly is refused inside a write transaction: %s %s: %v\nroutes: %s", rs.Method, rs.Pattern, err, c.RoutesString()), c)
+					return
+				}
+			}
+			for _, q := range c.Reqs {
+				want := route.LookupObs(b.F, q)
+				got := route.LookupObs(txn, q)
+				run.Count("lookups_inside_the_registering_transaction", 1)
+				if got.Pattern != want.Pattern || got.Tsr != want.Tsr || !route.SameParams(got.Params, want.Params) {
+					run.Violate("txn-lookup|"+c.RoutesString()+"|"+q.String(), fmt.Sprintf("Txn.Lookup inside the uncommitted transaction that registered the routes differs from Router.Lookup after they are committed\nroutes: %s\nrequest: %s\nin the transaction: %s\ncommitted: %s", c.RoutesString(), q, got, want), c)
+				}
+			}
 		})
 	}
 	// metamorphic monitor: registering routes that match neither form of a request never changes its outcome
@@ -389,7 +434,8 @@ func probe(run *kit.Run, c route.Case, b *route.Built, q route.Req, sample bool)
 	got := route.LookupObs(b.F, q)
 	want := b.Ref(q)
 	rev := route.ReverseObs(b.F, q)
-	if rev.Pattern != got.Pattern || rev.Tsr != got.Tsr {
+	// (Reverse documents that it reads the empty path as "/": no agreement is owed there)
+	if mp != "" && (rev.Pattern != got.Pattern || rev.Tsr != got.Tsr) {
 		run.Violate("entry-reverse|"+id, fmt.Sprintf("Reverse disagrees with Lookup\nroutes: %s\nrequest: %s\nLookup: %s\nReverse: %s", c.RoutesString(), q, got, rev), c)
 	}
 	nontrivial := got.Tsr || want.Tsr
